@@ -176,7 +176,31 @@ CLAIMED["C04"] = dict(
        "restricted to {1,2,3} and at most 8 cells per direction.",
   ref="DESIGN.md section 5 (C04)", engine="tlc-transfer")
 
+CLAIMED["C15"] = dict(
+  technique="TLA+ reference of volume averaging as interval overlap with "
+            "nearest-value extension (VolAvg.tla), laws checked by TLC on all "
+            "1-D grid pairs + TLC validation of the real weight routine on "
+            "all those pairs and of extracted 3-D matrices (VolAvgCode.tla)",
+  text="TLC checks on the reference, for all pairs of 1-D grids with integer "
+       "nodes in 0..5 (thorough 0..6: 14400 pairs), that weights of an "
+       "output cell sum to its width (convex combination, hence range), "
+       "conservation on equal regions, identity on equal grids and nearest "
+       "value outside.  The real _volume_average_weights is run on all those "
+       "pairs and every returned segment is checked by TLC against the "
+       "reference; the matrices of the real 3-D interpolate(method='volume') "
+       "and of discretize's volume_average (whose transpose the gradient "
+       "applies; _interp_volume_average_adj observed to apply exactly P^T) "
+       "are extracted on sampled grid triples and checked entry by entry; "
+       "log mode and the resistivity/conductivity symmetry are observed.",
+  note="Trusted: TLC; integer node coordinates only; 3-D through sampled "
+       "triples (tensor-product structure of the code); log-mode statements "
+       "are floating-point observations.",
+  ref="DESIGN.md section 5 (C15)", engine="tlc-volavg")
+
 ENGINES = [
+ dict(name="tlc-volavg", path="spec/VolAvg.tla", serves_properties=["C15"],
+      kind_free_text="TLA+ exact-arithmetic reference + TLC validation of "
+                     "code output"),
  dict(name="tlc-transfer", path="spec/Transfer.tla", serves_properties=["C04"],
       kind_free_text="TLA+ exact-arithmetic reference + TLC validation of "
                      "extracted code matrices"),
